@@ -115,6 +115,22 @@ theorem ok_after_k0 (offsetZero : Bool) :
     okAfterK0 (stdDef .cone offsetZero) = allOps.filter (fun op => !coneUnsupported.contains op) :=
   ok_after_k0_std_aux offsetZero
 
+/-- **General form**: for EVERY definition and every reachable state in which `calc_k0()` succeeds, from then
+on — in every later history — a call succeeds iff the static conditions `opOK` on (definition, model) hold.
+After one `calc_k0()` the hidden state no longer decides anything. -/
+theorem ok_after_k0_general (d : Def) (s : State) (hi : Inv d s.h)
+    (hok : (step d s (.k0 false)).2.isOk = true) (ops : List Op) (op : Op) :
+    ∃ m, cModel d = .valid m ∧
+      (step d (runOps d (step d s (.k0 false)).1 ops) op).2.isOk = opOK d m op :=
+  ok_after_k0_general_aux d s hi hok ops op
+
+/-! what `opOK` says for some calls (it is a conjunction of static conditions over the call's program) -/
+example (d : Def) (m : MName) : opOK d m .uvw = true := by simp [opOK, prog, lookup, instrOK]
+example (d : Def) (m : MName) (sa : Bool) : opOK d m (.kM sa) = d.mu := by
+  cases sa <;> simp [opOK, prog, progKM, lookup, sizeUnless, instrOK, Cond.holds]
+example (d : Def) (m : MName) : opOK d m .strain = (Feat.fstrain.has m && !d.alphaGiven) := by
+  simp [opOK, prog, progStrain, lookup, instrOK, Cond.holds]
+
 /-- `allOps` really lists every call of the model. -/
 theorem allOps_total (op : Op) : op ∈ allOps :=
   allOps_complete op
